@@ -59,11 +59,18 @@ JudgeC13(t) ==
         b6 == IF local /\ ~f.isClosed THEN {<<"C13", "not-closed-after-local-close">>} ELSE {}
     IN  b1 \cup b2 \cup b3 \cup b4 \cup b5 \cup b6
 
+\* C08, websocket side: a frame a SHIP peer must never send costs at most the connection - the receive loop goes on (the
+\* regular frame 9 that follows is delivered) or the connection is closed
+JudgeC08(t) ==
+    LET s == t.script
+        got9 == \E i \in Idx(t) : t.events[i].ev = "DeliverIn" /\ t.events[i].n = 9
+    IN  IF s.event = "peerBad" /\ ~got9 /\ ~t.final.isClosed THEN {<<"C08", "receive-loop-blocked-after-odd-frame", s.k>>} ELSE {}
+
 Init == l = 0
 Next == /\ l < Len(Trace)
         /\ l' = l + 1
         /\ LET t == Trace[l + 1]
-           IN  \A k \in JudgeC12(t) \cup JudgeC13(t) :
+           IN  \A k \in JudgeC12(t) \cup JudgeC13(t) \cup JudgeC08(t) :
                   PrintT(<<"MON", ToJson([id |-> t.id, i |-> 0, key |-> k, kf |-> {}])>>)
 Spec == Init /\ [][Next]_l
 Done == TLCGet("stats").diameter = Len(Trace) + 1
